@@ -523,6 +523,7 @@ func (r *yieldRewriter) rewriteSwitchStmt(
 			x,
 			body,
 		)
+		children = r.combineIfNecessary(children) // for init containing yield
 		children.push(switchStmt, kindTrival)
 		return children
 	}
